@@ -6,7 +6,7 @@
 (* <<property id, predicate name>>.                                         *)
 (***************************************************************************)
 EXTENDS Naturals, Integers, Sequences, FiniteSets, SequencesExt,
-        FiniteSetsExt, Functions, TLC, Text, Vlq, SMap, Sem, Attr, Compose, Rope, ReplReq, EncM, SplitM, ReplaceM, ConcatM, HashM, LeafM, CombineM
+        FiniteSetsExt, Functions, TLC, Text, Vlq, SMap, Sem, Attr, Compose, Rope, ReplReq, EncM, DecM, SplitM, ReplaceM, ConcatM, HashM, LeafM, CombineM
 
 NREG == 16
 EmptyHeap == [i \in 0..(NREG - 1) |-> Nil]
@@ -711,7 +711,8 @@ Checks(r, st) ==
                    <<"DRIFT", "full_encoder_follows_EncM">>}
              ELSE {}
       [] r.op = "decode" ->
-           IF WellFormedMappings(r.m) THEN {<<"C12", "decoder_matches_format">>} ELSE {}
+           (IF WellFormedMappings(r.m) THEN {<<"C12", "decoder_matches_format">>} ELSE {})
+           \cup (IF ~r.out.big /\ ~DecodeM(r.m).big THEN {<<"DRIFT", "decoder_follows_DecM">>} ELSE {})
       [] r.op = "lines_encode" ->
            IF CodecDomain(SegsOf(r.segs))
              THEN {<<"C12", "lines_only_first_mapped">>, <<"DRIFT", "lines_encoder_follows_EncM">>}
@@ -878,6 +879,7 @@ Holds(c, r, st) ==
     [] c = <<"DRIFT", "combined_stream_follows_CombineM">> ->
          LET model == CombineStream(t, r.columns, r.final)
          IN r.out.ev = model.ev /\ r.out.end = model.end
+    [] c = <<"DRIFT", "decoder_follows_DecM">> -> SegsOf(r.out.dec) = DecodeM(r.m).out
     [] c = <<"DRIFT", "hash_feed_follows_HashM">> -> r.out.feed = Blank(Feed(t))
     [] c = <<"DRIFT", "lock_refuses_as_modelled">> -> r.waited
     [] c = <<"DRIFT", "schedule_replayed">> ->
